@@ -98,6 +98,19 @@ Proof.
 Qed.
 Print Assumptions bounded_wait.
 
+(* "tried exactly once": in the window of P consecutive attempts every combination of the box occurs at exactly one
+   position (counting form of `exhaustive`, for any decision procedure of equality on outcome tuples) *)
+Theorem each_combination_exactly_once : forall (dec : forall x y : list outcome, {x = y} + {x <> y}) pc s a t,
+  fc_pc s = pc -> valid (fc_stack s) -> in_box (shape (fc_stack s)) t ->
+  count_occ dec (map (fun k => nth_attempt_out pc (shape (fc_stack s)) (a + k) s)
+                     (seq 0 (N.to_nat (prodsig (shape (fc_stack s)))))) (map Ret t) = 1%nat.
+Proof.
+  intros dec pc s a t Hpc Hv Ht.
+  destruct (exhaustive_lemma pc s a Hpc Hv) as [Hnd Hcov].
+  apply (proj1 (NoDup_count_occ' dec _) Hnd). apply Hcov. exact Ht.
+Qed.
+Print Assumptions each_combination_exactly_once.
+
 (* non-vacuity: a concrete nested state meets the hypotheses, and the window is what the
    theorem says (depth 3, bounds 2,3,2) *)
 Example c10_nonvacuous :
